@@ -38,6 +38,9 @@ Qed.
 Lemma pow2_pos x : x <> 0 -> 0 < x^2.
 Proof. intros H. replace (x^2) with (Rsqr x) by (unfold Rsqr; ring). now apply Rlt_0_sqr. Qed.
 
+Lemma mul_self_nonneg x : 0 <= x * x.
+Proof. apply Rle_0_sqr. Qed.
+
 Lemma sdot_nonneg a : 0 <= sdot a a.
 Proof. unfold sdot. nra. Qed.
 
@@ -122,8 +125,11 @@ Proof.
   set (mu := mdot (V4 u0 ux uy uz) (V4 u0 ux uy uz)) in *. set (G := gram _ _ _) in *.
   assert (0 < u0^2) by (apply pow2_pos; exact Hu).
   assert (0 <= u0^2 * G).
-  { rewrite Haa. apply Rplus_le_le_0_compat; [apply Rmult_le_pos; [exact Hm|nra]|nra]. }
-  destruct (Rle_dec 0 G) as [|N]; [assumption|exfalso]. apply Rnot_le_lt in N. nra.
+  { rewrite Haa. apply Rplus_le_le_0_compat;
+      [apply Rmult_le_pos; [exact Hm|repeat apply Rplus_le_le_0_compat; apply mul_self_nonneg]
+      |apply mul_self_nonneg]. }
+  destruct (Rle_dec 0 G) as [|N]; [assumption|exfalso]. apply Rnot_le_lt in N.
+  clear Haa. assert (u0^2 * G < u0^2 * 0) by (apply Rmult_lt_compat_l; assumption). lra.
 Qed.
 
 (* future-directed causal vectors *)
@@ -135,8 +141,10 @@ Proof.
   intros [Ha Hma] [Hb Hmb].
   set (s := ax*bx + ay*by_ + az*bz).
   assert (Hl : s^2 <= (ax^2+ay^2+az^2) * (bx^2+by_^2+bz^2)).
-  { unfold s.
-    assert (0 <= (ay*bz - az*by_)^2 + (az*bx - ax*bz)^2 + (ax*by_ - ay*bx)^2) by nra. nra. }
+  { assert (E : (ax^2+ay^2+az^2) * (bx^2+by_^2+bz^2) - s^2
+                = (ay*bz - az*by_)^2 + (az*bx - ax*bz)^2 + (ax*by_ - ay*bx)^2) by (unfold s; ring).
+    pose proof (pow2_ge_0 (ay*bz - az*by_)). pose proof (pow2_ge_0 (az*bx - ax*bz)).
+    pose proof (pow2_ge_0 (ax*by_ - ay*bx)). lra. }
   assert (Hp : (ax^2+ay^2+az^2) * (bx^2+by_^2+bz^2) <= a0^2 * b0^2).
   { apply Rmult_le_compat; nra. }
   assert (s <= a0 * b0).
@@ -222,7 +230,7 @@ Lemma acos_sum B C D : 0 < B -> 0 < C -> 0 < B + C + 2 * D -> D^2 <= B * C ->
   acos ((B + D) / (sqrt (B + C + 2 * D) * sqrt B)) + acos ((C + D) / (sqrt (B + C + 2 * D) * sqrt C))
   = acos (D / (sqrt B * sqrt C)).
 Proof.
-  intros HB HC HA HD. set (A := B + C + 2 * D) in *.
+  intros HB HC HA HD. pose proof HA as HA'. set (A := B + C + 2 * D) in HA |- *.
   set (sA := sqrt A). set (sB := sqrt B). set (sC := sqrt C).
   assert (HsA : 0 < sA) by now apply sqrt_lt_R0. assert (HsB : 0 < sB) by now apply sqrt_lt_R0.
   assert (HsC : 0 < sC) by now apply sqrt_lt_R0.
@@ -261,7 +269,7 @@ Proof.
         assert (0 < sB * sC) by now apply Rmult_lt_0_compat. nra. }
       apply Rmult_le_pos; [apply Rmult_le_pos; lra|].
       left; apply Rinv_0_lt_compat. repeat apply Rmult_lt_0_compat; assumption.
-    - unfold x, y. rewrite <- EB at 2. rewrite <- EC at 2. field. repeat split; lra. }
+    - unfold x, y. rewrite <- EB, <- EC. field. repeat split; lra. }
   pose proof (acos_bound x) as Bx. pose proof (acos_bound y) as By.
   assert (Hle : acos x + acos y <= PI).
   { destruct (Rle_dec (acos x + acos y) PI) as [|N]; [assumption|exfalso]. apply Rnot_le_lt in N.
